@@ -209,14 +209,24 @@ inductive PElem where
   | lit (c : Char)
   | star
   | sep          -- `(?:[^\w\d\._%-])`; as the last element `(?:[^\w\d\._%-]|$)`
+  | never        -- a regex start-anchor `^` that ended up in the middle of the text (see `elems`)
 deriving Repr, DecidableEq
 
 def isSepChar (c : Char) : Bool :=
   !(c.isAlphanum || c == '_' || c == '-' || c == '.' || c == '%')
 
+def elemOf (c : Char) : PElem := if c == '*' then .star else if c == '^' then .sep else .lit c
+
+/-- the element list the emitted regex denotes.  `ANCHOR_RE` (`\^(.)`) consumes the character after
+    a `^`: in the degenerate spelling `^^x` the second `^` is copied into the regex as a start-anchor,
+    which can never match after a consumed separator. -/
 def elems : Str → List PElem
   | [] => []
-  | c :: cs => (if c == '*' then .star else if c == '^' then .sep else .lit c) :: elems cs
+  | [c] => [elemOf c]
+  | [c, d] => [elemOf c, elemOf d]
+  | c :: d :: e :: rest =>
+    if c == '^' && d == '^' then .sep :: .never :: elems (e :: rest)
+    else elemOf c :: elems (d :: e :: rest)
 
 /-- `.*` followed by the continuation `k`: `k` is tried at every suffix, leftmost first -/
 def starLoop (k : Str → Bool) : Str → Bool
@@ -232,6 +242,7 @@ def matchHere (toEnd : Bool) : List PElem → Str → Bool
   | .sep :: ps, s => match s with
       | d :: s' => isSepChar d && matchHere toEnd ps s'
       | [] => ps.isEmpty
+  | .never :: _, _ => false
   | .star :: ps, s => starLoop (matchHere toEnd ps) s
 
 def matchAnywhere (toEnd : Bool) (ps : List PElem) : Str → Bool
